@@ -1046,7 +1046,9 @@ func (t *Topic) saveAndBroadcastMessage(msg *ClientComMessage, asUid types.Uid, 
 
 	data := &ServerComMessage{
 		Data: &MsgServerData{
-			Topic:     msg.Original,
+			// The name of the topic as the author sees it, not the spelling used in the request (e.g. chnXXX sent
+			// to a group which is not a channel). For P2P and channels it's rewritten for every recipient.
+			Topic:     t.original(asUid),
 			From:      msg.AsUser,
 			Timestamp: msg.Timestamp,
 			SeqId:     t.lastID,
